@@ -302,6 +302,16 @@ func (s *speller) runeForm(x rune, q rune) string {
 		forms = append(forms, fmt.Sprintf(`\u%04x`, x))
 	}
 	forms = append(forms, fmt.Sprintf(`\U%08x`, x))
+	if x >= 0x80 && q == '"' && x != utf8.RuneError {
+		// in a quoted literal \xNN and \NNN are BYTES: a non-ASCII rune can be written as the escapes
+		// of its UTF-8 encoding
+		var hx, oc string
+		for _, b := range []byte(string(x)) {
+			hx += fmt.Sprintf(`\x%02x`, b)
+			oc += fmt.Sprintf(`\%03o`, b)
+		}
+		forms = append(forms, hx, oc)
+	}
 	return forms[r.Intn(len(forms))]
 }
 
@@ -702,7 +712,7 @@ func C03(c *Ctx) {
 		for k := 0; k < nr; k++ {
 			ru := &arule{name: g.names[k], expr: g.expr(1 + rng.Intn(4))}
 			if rng.Intn(3) == 0 {
-				ru.display = []string{"friendly name", "q\"uote", "tab\there", "ünï", "a`b"}[rng.Intn(5)]
+				ru.display = []string{"friendly name", "q\"uote", "tab\there", "ünï", "a`b", "100% %d %s"}[rng.Intn(6)]
 			}
 			rules = append(rules, ru)
 		}
